@@ -386,7 +386,54 @@ fn lenient_v<V: Fv>(ctx: &Ctx, rep: &mut Report) {
     rep.merge(r);
 }
 
+/// Both variants interleaved in ONE thread, every public key object used several times with
+/// different signatures, keys revisited (A, B, A): state kept by verify between calls (a cached
+/// transform of "the" public key, a scratch buffer sized by an earlier call) shows up here.
+fn interleaved(ctx: &Ctx, rep: &mut Report) {
+    let mut rng = rng_for(ctx.seed, "c02-interleaved");
+    let m = ctx.sz(10, 80);
+    let mut t5 = vec![];
+    let mut t10 = vec![];
+    for i in 0..m {
+        let d = [0i64, 1, -1, -1000, 2][i % 5];
+        if let Some(c) = craft_exact(512, F512::BOUND + d, (i % 4) as u32, &mut rng) {
+            t5.push(c);
+        }
+        if let Some(c) = craft_exact(1024, F1024::BOUND + d, (i % 4) as u32, &mut rng) {
+            t10.push(c);
+        }
+    }
+    let enc = |c: &crate::gen::Crafted, l: usize, hdr: u8| -> Option<(Vec<u8>, Vec<u8>)> {
+        let body = spec::compress(&c.s2, l)?;
+        let mut sb = vec![hdr];
+        sb.extend_from_slice(&c.salt);
+        sb.extend_from_slice(&body);
+        Some((sb, spec::pk_encode(&c.h)))
+    };
+    for round in 0..3 {
+        for i in 0..t5.len().min(t10.len()) {
+            // A(512) B(1024) A(512) with another message (must be rejected) B(1024) again
+            if let (Some((s5, p5)), Some((s10, p10))) = (enc(&t5[i], 625, 0x59), enc(&t10[i], 1239, 0x5a)) {
+                check_triple::<F512>("interleaved", &t5[i].msg, &s5, &p5, rep);
+                check_triple::<F1024>("interleaved", &t10[i].msg, &s10, &p10, rep);
+                check_triple::<F512>("interleaved-other-msg", b"other", &s5, &p5, rep);
+                // signature of triple i under the public key of triple i+1 (and back)
+                let j = (i + 1) % t5.len().min(t10.len());
+                if let Some((_, p5b)) = enc(&t5[j], 625, 0x59) {
+                    check_triple::<F512>("interleaved-other-pk", &t5[i].msg, &s5, &p5b, rep);
+                }
+                check_triple::<F1024>("interleaved", &t10[i].msg, &s10, &p10, rep);
+                check_triple::<F512>("interleaved", &t5[i].msg, &s5, &p5, rep);
+                rep.count("interleaved_sequences", 1);
+                rep.nontrivial(format!("interleaved|{}|{}", round, i).as_bytes());
+            }
+        }
+    }
+    rep.require("interleaved_sequences", 10);
+}
+
 pub fn boundary(ctx: &Ctx, rep: &mut Report) {
+    interleaved(ctx, rep);
     boundary_v::<F512>(ctx, rep);
     boundary_v::<F1024>(ctx, rep);
     lenient_v::<F512>(ctx, rep);
